@@ -98,6 +98,29 @@ def rule_order(an, res, prop, containers):
         check_clean_and_other(an, res, prop, cm, roles)
 
 
+def single_node_list(seg, roles):
+    """did the path establish that the order list has exactly one node: `std::next(l.begin()) == l.end()` (capacity 1)?"""
+    if roles.order is None:
+        return False
+    order = ('fld', ('this',), roles.order)
+
+    def next_of_begin(x):
+        return (isinstance(x, tuple) and len(x) > 2 and x[0] == 'adv' and x[1] == 1 and isinstance(x[2], tuple) and len(x[2]) > 2
+                and x[2][0] == 'q' and x[2][1] in ('begin', 'cbegin') and x[2][2] == order)
+
+    def end_of(x):
+        return isinstance(x, tuple) and len(x) > 2 and x[0] == 'q' and x[1] in ('end', 'cend') and x[2] == order
+    for c in seg.conds:
+        raw, truth = c[4], c[2]
+        if isinstance(raw, tuple) and len(raw) == 4 and raw[0] == 'cmp' and raw[1] in ('==', '!='):
+            a, b = raw[2], raw[3]
+            if (next_of_begin(a) and end_of(b)) or (next_of_begin(b) and end_of(a)):
+                rawtruth = c[5] if len(c) > 5 else truth
+                if (raw[1] == '==') == bool(rawtruth if rawtruth is not None else truth):
+                    return True
+    return False
+
+
 def check_body(res, prop, cm, roles, m, k, b):
     seg = b.seg
     case = body_case(cm, roles, k, b)
@@ -156,6 +179,9 @@ def check_body(res, prop, cm, roles, m, k, b):
         n = sim.bound_node
         want = BIND_POS.get(cm.name)
         pos = sim.position_of(n) if isinstance(n, Node) else set()
+        single = single_node_list(seg, roles)
+        if single and 'FRONT' in pos:
+            pos = set(pos) | {'BACK'}       # the path established next(begin()) == end(): the only node is head and tail at once
         ok = isinstance(n, Node) and want in pos and not sim.unknown
         res.ob('R-BIND-POS', ok=ok)
         if not ok:
@@ -169,7 +195,8 @@ def check_body(res, prop, cm, roles, m, k, b):
             if cm.name == 'fifo_cache':
                 okv = v.kind in ('FROMEND', 'FRONT') and any(c[0] == 'HASKEY' and c[2] and same_ent(c[1][0], v) for c in seg.conds)
                 # the recycled node is the list head (spliced from begin() to end())
-                okv = okv and bool(moves) and moves[0].ent is not None and moves[0].ent.kind == 'FRONT'
+                okv = okv and ((bool(moves) and moves[0].ent is not None and moves[0].ent.kind == 'FRONT') or
+                               (not moves and single and v.kind == 'FRONT'))      # one node: the head is the tail, nothing to re-link
                 wantv = 'the head node (earliest inserted)'
             else:
                 ttl_head_expired = any(c[0] == 'EXPIRED' and c[2] and c[1][0].kind == 'AUXHEAD' for c in seg.conds)
